@@ -1,12 +1,933 @@
-//! C08 — monitor not built yet (stub so that the registry is complete).
+//! C08 — the interprocedural control flow graph represents exactly the program's control flow.
+//!
+//! Monitor shape: the real `get_program_cfg_with_logs` / `get_program_cfg` / `get_entry_nodes_of_subs`
+//! are executed on random multi-function programs (raw, i.e. with blocks shared between functions, and
+//! the same programs after `Project::normalize_basic`). An independent specification (`spec_of`),
+//! written from the module documentation of `analysis/graph.rs` and the property statement, computes the
+//! expected node and edge *multisets* declaratively from the program (reachability closure per function,
+//! then one rule per jump kind). Both sides are compared by canonical labels, so node numbering and the
+//! order in which the builder discovers blocks are irrelevant.
+//!
+//! The generator (`gen_program`) is shared with C09, which switches on the irregularities
+//! (dangling targets, duplicated tids) that are outside the input domain of the graph builder.
+
 use crate::core::*;
+use crate::irb::*;
+use crate::prng::Rng;
+use cwe_checker_lib::analysis::graph::{self, Edge, Graph, Node};
+use cwe_checker_lib::intermediate_representation::*;
+use petgraph::visit::EdgeRef;
+use serde_json::{json, Value};
+use std::collections::{BTreeMap, BTreeSet};
 
 pub fn info() -> CheckInfo {
     CheckInfo {
         id: "C08",
-        rule: "(monitor not built yet)",
-        assumptions: &[],
-        run: |_cfg| Report::new(),
-        replay: |_cfg, _case| Report::new(),
+        rule: "random programs (<= 6 functions, <= 8 blocks each; empty functions; 0/1/2 jumps per block with [CBranch, unconditional]; BranchInd with 0-3 possibly repeated target hints; internal/extern/indirect calls with and without return site; calls to empty functions and to unknown tids; several return blocks per function; recursion; blocks of one function jumped to or listed by another) checked in raw form and after normalize_basic: node and edge multisets of get_program_cfg_with_logs compared by canonical labels (kind, block tid, function tid, jump tids) with the specification; get_entry_nodes_of_subs compared with {non-empty function -> BlkStart of its first block}; get_program_cfg must give the same labels. non-trivial = the expected graph contains at least one Call edge or stub edge and at least one Jump edge; distinct = hash of (stage, program)",
+        assumptions: &[
+            "input domain of the builder (guards of the generator, re-checked by the oracle): at most two jumps per block, the first of two is a CBranch; every branch target, return site and hint of an indirect jump exists as a block somewhere in the program (the builder resolves foreign blocks with find_block(..).unwrap()); blocks listed under the same tid in several functions have identical content; no block tid listed twice in the same function",
+            "CALLOTHER jumps produce no edges and their return site is not followed (documented TODO in graph.rs); hints on blocks without BranchInd produce no edges (Blk documentation: the hints belong to the indirect jump)",
+            "documentation silent: whether the return-site block of a call that has no linkage at all (callee empty/unknown, or callee without any returning block) belongs to the caller's part of the graph when it is not reachable otherwise. Such programs (only possible in raw form) are counted inconclusive, never pass/fail",
+            "module documentation says the CRCallStub edge starts at the BlkEnd node of the callsite, the builder (and the fixpoint code consuming it) starts it at the CallSource node of the same callsite: both are accepted (the label of that edge's source is the callsite (block, function) pair)",
+        ],
+        run,
+        replay,
     }
+}
+
+// ---------------------------------------------------------------------------------------------
+// Generator (shared with C09)
+
+#[derive(Clone, Debug)]
+pub struct Knobs {
+    pub max_subs: usize,
+    pub max_blocks: usize,
+    /// n/8 = probability that an intraprocedural target is drawn from the blocks of *all* functions
+    pub shared: u32,
+    /// list clones of non-entry blocks in a second function (raw form of shared blocks)
+    pub listed_shared: bool,
+    /// C09: dangling branch/return/hint targets
+    pub dangling: bool,
+    /// C09: duplicated def / jmp / non-entry block tids
+    pub dup_tids: bool,
+    /// calls to tids that are neither a function nor an extern symbol
+    pub unknown_calls: bool,
+    /// a few CALLOTHER jumps (no edges by design)
+    pub callother: bool,
+    /// second jump of a two-jump block may also be BranchInd/Call/CallInd/Return
+    pub two_jump_variants: bool,
+}
+
+impl Knobs {
+    pub fn c08(rng: &mut Rng) -> Knobs {
+        Knobs {
+            max_subs: 6,
+            max_blocks: 8,
+            shared: *rng.pick(&[0u32, 0, 1, 1, 2, 3]),
+            listed_shared: rng.chance(1, 3),
+            dangling: false,
+            dup_tids: false,
+            unknown_calls: true,
+            callother: rng.chance(1, 6),
+            two_jump_variants: rng.chance(1, 2),
+        }
+    }
+}
+
+pub fn sub_tid(i: usize) -> Tid {
+    tid(&format!("sub_{:02}000", i), &format!("{:02}000", i))
+}
+pub fn blk_addr(i: usize, k: usize) -> String {
+    format!("{:02}{:03}", i, k * 8)
+}
+pub fn blk_tid(i: usize, k: usize) -> Tid {
+    let a = blk_addr(i, k);
+    tid(&format!("blk_{a}"), &a)
+}
+pub fn ext_ret_tid() -> Tid {
+    tid("sub_ext_puts", "ext_puts")
+}
+pub fn ext_noret_tid() -> Tid {
+    tid("sub_ext_exit", "ext_exit")
+}
+pub fn unknown_sub_tid(n: u64) -> Tid {
+    tid(&format!("sub_dead{n}"), &format!("dead{n}"))
+}
+
+struct Gen<'a> {
+    rng: &'a mut Rng,
+    k: Knobs,
+    n_blocks: Vec<usize>,
+    never_returns: Vec<bool>,
+    counter: u32,
+}
+
+impl<'a> Gen<'a> {
+    fn instr(&mut self, addr: &str) -> Tid {
+        self.counter += 1;
+        tid(&format!("instr_{addr}_{}", self.counter), addr)
+    }
+
+    /// Intraprocedural target (branch target, return site, hint) for a block of function `i`.
+    fn target(&mut self, i: usize) -> Tid {
+        if self.k.dangling && self.rng.chance(1, 9) {
+            let n = self.rng.below(3);
+            return tid(&format!("blk_dead{n}"), &format!("dead{n}"));
+        }
+        if self.k.shared > 0 && self.rng.chance(self.k.shared as u64, 8) {
+            let cands: Vec<usize> = (0..self.n_blocks.len()).filter(|j| self.n_blocks[*j] > 0).collect();
+            if !cands.is_empty() {
+                let j = *self.rng.pick(&cands);
+                let nb = self.n_blocks[j];
+                let kk = if nb > 1 && !self.rng.chance(1, 4) { self.rng.range_usize(1, nb - 1) } else { self.rng.usize_below(nb) };
+                return blk_tid(j, kk);
+            }
+        }
+        blk_tid(i, self.rng.usize_below(self.n_blocks[i]))
+    }
+
+    fn call_target(&mut self, i: usize) -> Tid {
+        match self.rng.below(20) {
+            0..=8 => sub_tid(self.rng.usize_below(self.n_blocks.len())),
+            9 | 10 => sub_tid(i),
+            11..=14 => ext_ret_tid(),
+            15 | 16 => ext_noret_tid(),
+            17 if self.k.unknown_calls => unknown_sub_tid(self.rng.below(2)),
+            _ => sub_tid(self.rng.usize_below(self.n_blocks.len())),
+        }
+    }
+
+    fn hints(&mut self, i: usize, max: usize) -> Vec<Tid> {
+        let n = self.rng.range_usize(0, max);
+        let mut v: Vec<Tid> = Vec::new();
+        for _ in 0..n {
+            if !v.is_empty() && self.rng.chance(1, 4) {
+                let d = self.rng.pick(&v).clone();
+                v.push(d); // repeated hint
+            } else {
+                v.push(self.target(i));
+            }
+        }
+        v
+    }
+
+    /// One unconditional jump; `class` selects the kind.
+    fn uncond(&mut self, i: usize, addr: &str, class: u64, hints: &mut Vec<Tid>) -> Term<Jmp> {
+        let t = self.instr(addr);
+        match class {
+            0 => jmp(t, Jmp::Branch(self.target(i))),
+            1 => {
+                *hints = self.hints(i, 3);
+                jmp(t, Jmp::BranchInd(e_reg("RAX")))
+            }
+            2 => {
+                let target = self.call_target(i);
+                let return_ = if self.rng.chance(1, 5) { None } else { Some(self.target(i)) };
+                jmp(t, Jmp::Call { target, return_ })
+            }
+            3 => {
+                let return_ = if self.rng.chance(1, 4) { None } else { Some(self.target(i)) };
+                jmp(t, Jmp::CallInd { target: e_reg("RBX"), return_ })
+            }
+            4 => {
+                let return_ = if self.rng.chance(1, 4) { None } else { Some(self.target(i)) };
+                jmp(t, Jmp::CallOther { description: "CALLOTHER(cpuid)".to_string(), return_ })
+            }
+            _ => {
+                if self.never_returns[i] {
+                    jmp(t, Jmp::Branch(self.target(i)))
+                } else {
+                    jmp(t, Jmp::Return(e_reg("RCX")))
+                }
+            }
+        }
+    }
+
+    fn uncond_class(&mut self) -> u64 {
+        match self.rng.below(12) {
+            0..=2 => 0,
+            3 | 4 => 1,
+            5..=7 => 2,
+            8 => 3,
+            _ => 5,
+        }
+    }
+
+    fn defs(&mut self, addr: &str) -> Vec<Term<Def>> {
+        let n = self.rng.below(3);
+        (0..n)
+            .map(|_| {
+                let t = self.instr(addr);
+                let r = *self.rng.pick(&["RAX", "RBX", "RDI"]);
+                assign(t, reg(r), e_const(self.rng.below(100) as i64, 8))
+            })
+            .collect()
+    }
+
+    fn block(&mut self, i: usize, k: usize) -> Term<Blk> {
+        let addr = blk_addr(i, k);
+        let defs = self.defs(&addr);
+        let mut hints = Vec::new();
+        let mut jmps = Vec::new();
+        match self.rng.below(20) {
+            0 => (),
+            1..=5 => jmps.push(self.uncond(i, &addr, 0, &mut hints)),
+            6..=10 => {
+                let t = self.instr(&addr);
+                let cond = e_var(&var(*self.rng.pick(FLAGS), 1));
+                jmps.push(jmp(t, Jmp::CBranch { target: self.target(i), condition: cond }));
+                let class = if self.k.two_jump_variants && self.rng.chance(1, 3) { self.uncond_class() } else { 0 };
+                jmps.push(self.uncond(i, &addr, class, &mut hints));
+            }
+            11 | 12 => jmps.push(self.uncond(i, &addr, 1, &mut hints)),
+            13..=15 => jmps.push(self.uncond(i, &addr, 2, &mut hints)),
+            16 => jmps.push(self.uncond(i, &addr, 3, &mut hints)),
+            17 if self.k.callother && self.rng.chance(1, 2) => jmps.push(self.uncond(i, &addr, 4, &mut hints)),
+            _ => jmps.push(self.uncond(i, &addr, 5, &mut hints)),
+        }
+        let has_ind = jmps.iter().any(|j| matches!(j.term, Jmp::BranchInd(_)));
+        if !has_ind && self.rng.chance(1, 14) {
+            // hints on a block without an indirect jump (stale data): must not produce edges
+            hints = self.hints(i, 2);
+        }
+        let mut b = blk(blk_tid(i, k), defs, jmps);
+        b.term.indirect_jmp_targets = hints;
+        b
+    }
+
+    fn inject_duplicates(&mut self, subs: &mut [Term<Sub>]) {
+        // duplicated def tids
+        for _ in 0..self.rng.below(4) {
+            let pos: Vec<(usize, usize, usize)> = subs
+                .iter()
+                .enumerate()
+                .flat_map(|(s, sub)| sub.term.blocks.iter().enumerate().flat_map(move |(b, blk)| (0..blk.term.defs.len()).map(move |d| (s, b, d))))
+                .collect();
+            if pos.len() < 2 {
+                break;
+            }
+            let p = *self.rng.pick(&pos);
+            let q = *self.rng.pick(&pos);
+            if p != q {
+                let t = subs[p.0].term.blocks[p.1].term.defs[p.2].tid.clone();
+                subs[q.0].term.blocks[q.1].term.defs[q.2].tid = t;
+            }
+        }
+        // duplicated jmp tids
+        for _ in 0..self.rng.below(4) {
+            let pos: Vec<(usize, usize, usize)> = subs
+                .iter()
+                .enumerate()
+                .flat_map(|(s, sub)| sub.term.blocks.iter().enumerate().flat_map(move |(b, blk)| (0..blk.term.jmps.len()).map(move |d| (s, b, d))))
+                .collect();
+            if pos.len() < 2 {
+                break;
+            }
+            let p = *self.rng.pick(&pos);
+            let q = *self.rng.pick(&pos);
+            if p != q {
+                let t = subs[p.0].term.blocks[p.1].term.jmps[p.2].tid.clone();
+                subs[q.0].term.blocks[q.1].term.jmps[q.2].tid = t;
+            }
+        }
+        // duplicated non-entry block tids (never the tid of an entry block, never at position 0)
+        for _ in 0..self.rng.below(3) {
+            let src: Vec<(usize, usize)> = subs.iter().enumerate().flat_map(|(s, sub)| (1..sub.term.blocks.len()).map(move |b| (s, b))).collect();
+            let entry_tids: BTreeSet<Tid> = subs.iter().filter_map(|s| s.term.blocks.first().map(|b| b.tid.clone())).collect();
+            let dst: Vec<usize> = (0..subs.len()).filter(|s| !subs[*s].term.blocks.is_empty()).collect();
+            if src.is_empty() || dst.is_empty() {
+                break;
+            }
+            let (s, b) = *self.rng.pick(&src);
+            let orig = subs[s].term.blocks[b].clone();
+            if entry_tids.contains(&orig.tid) {
+                continue;
+            }
+            let d = *self.rng.pick(&dst);
+            let at = self.rng.range_usize(1, subs[d].term.blocks.len());
+            let dup = if self.rng.bool() {
+                orig // the same block emitted twice
+            } else {
+                // another block under the same tid
+                let addr = orig.tid.address.clone();
+                let defs = self.defs(&addr);
+                let mut hints = Vec::new();
+                let class = *self.rng.pick(&[0u64, 2, 5]);
+                let j = self.uncond(d, &addr, class, &mut hints);
+                blk(orig.tid.clone(), defs, vec![j])
+            };
+            subs[d].term.blocks.insert(at, dup);
+        }
+    }
+}
+
+/// Random program in the shape the P-Code extractor emits (`sub_*`, `blk_*`, `instr_*` tids).
+pub fn gen_program(rng: &mut Rng, k: &Knobs) -> Project {
+    let n_subs = rng.range_usize(1, k.max_subs);
+    let sizes = [1usize, 1, 2, 2, 3, 3, 4, 5, 6, 8];
+    let n_blocks: Vec<usize> = (0..n_subs).map(|_| if rng.chance(1, 7) { 0 } else { (*rng.pick(&sizes)).min(k.max_blocks) }).collect();
+    let never_returns: Vec<bool> = (0..n_subs).map(|_| rng.chance(1, 4)).collect();
+    let mut g = Gen { rng, k: k.clone(), n_blocks: n_blocks.clone(), never_returns, counter: 0 };
+    let mut subs: Vec<Term<Sub>> = Vec::new();
+    for i in 0..n_subs {
+        let blocks: Vec<Term<Blk>> = (0..n_blocks[i]).map(|kk| g.block(i, kk)).collect();
+        subs.push(sub(sub_tid(i), &format!("fn{i}"), blocks));
+    }
+    if k.listed_shared {
+        for _ in 0..g.rng.range_usize(1, 3) {
+            let src: Vec<(usize, usize)> = (0..n_subs).flat_map(|s| (1..n_blocks[s]).map(move |b| (s, b))).collect();
+            let dst: Vec<usize> = (0..n_subs).filter(|s| n_blocks[*s] > 0).collect();
+            if src.is_empty() || dst.len() < 2 {
+                break;
+            }
+            let (s, b) = *g.rng.pick(&src);
+            let d = *g.rng.pick(&dst);
+            let blk = subs[s].term.blocks[b].clone();
+            if d != s && !subs[d].term.blocks.iter().any(|x| x.tid == blk.tid) {
+                subs[d].term.blocks.push(blk);
+            }
+        }
+    }
+    if k.dup_tids {
+        g.inject_duplicates(&mut subs);
+    }
+    let externs = vec![
+        extern_symbol("puts", ext_ret_tid(), &["RDI"], Some("RAX"), false),
+        extern_symbol("exit", ext_noret_tid(), &["RDI"], None, true),
+    ];
+    let entry = subs[0].tid.clone();
+    project_x64(program(subs, externs, Some(entry)))
+}
+
+// ---------------------------------------------------------------------------------------------
+// Specification
+
+fn l_start(b: &Tid, s: &Tid) -> String {
+    format!("BlkStart({b} in {s})")
+}
+fn l_end(b: &Tid, s: &Tid) -> String {
+    format!("BlkEnd({b} in {s})")
+}
+fn l_callsite(b: &Tid, s: &Tid) -> String {
+    format!("Callsite({b} in {s})")
+}
+fn l_callsource(b: &Tid, s: &Tid, tb: &Tid, ts: &Tid) -> String {
+    format!("CallSource({b} in {s} calls {tb} in {ts})")
+}
+fn l_callreturn(b: &Tid, s: &Tid, rb: &Tid, rs: &Tid) -> String {
+    format!("CallReturn(call {b} in {s}, return from {rb} in {rs})")
+}
+fn l_edge(kind: &str, src: &str, dst: &str) -> String {
+    format!("{kind} {src} => {dst}")
+}
+fn l_jump(j: &Tid, untaken: Option<&Tid>) -> String {
+    match untaken {
+        Some(u) => format!("Jump[{j}|untaken {u}]"),
+        None => format!("Jump[{j}]"),
+    }
+}
+
+type Multiset = BTreeMap<String, usize>;
+fn ms_add(m: &mut Multiset, l: String) {
+    *m.entry(l).or_insert(0) += 1;
+}
+
+pub struct Spec {
+    pub nodes: Multiset,
+    pub edges: Multiset,
+    /// function tid -> label of the BlkStart node of its first block
+    pub entries: BTreeMap<String, String>,
+    /// (block, function) pairs where the function does not list the block
+    pub foreign_pairs: usize,
+    pub max_returns_linked: usize,
+}
+
+/// Why a program is outside the domain in which the specification decides.
+pub enum NoSpec {
+    /// outside the input domain of the builder (it may legitimately panic)
+    OutOfDomain(&'static str, String),
+    /// inside the domain, but the documentation does not determine the graph
+    Silent(String),
+}
+
+fn has_return(b: &Term<Blk>) -> bool {
+    b.term.jmps.iter().any(|j| matches!(j.term, Jmp::Return(_)))
+}
+
+/// Blocks of each function: the listed blocks plus everything reachable from them through
+/// intraprocedural control flow. `returning`: `None` = follow the return site of every call;
+/// `Some(set)` = follow the return site of a direct call only if something leads there
+/// (extern callee => stub edge, callee in `set` => return linkage).
+fn closures(p: &Program, blocks: &BTreeMap<Tid, &Term<Blk>>, returning: Option<&BTreeSet<Tid>>) -> BTreeMap<Tid, BTreeSet<Tid>> {
+    let mut out = BTreeMap::new();
+    for sub in p.subs.values() {
+        let mut set: BTreeSet<Tid> = BTreeSet::new();
+        let mut work: Vec<Tid> = sub.term.blocks.iter().map(|b| b.tid.clone()).collect();
+        while let Some(t) = work.pop() {
+            if !set.insert(t.clone()) {
+                continue;
+            }
+            let b = blocks[&t];
+            for j in &b.term.jmps {
+                match &j.term {
+                    Jmp::Branch(x) | Jmp::CBranch { target: x, .. } => work.push(x.clone()),
+                    Jmp::BranchInd(_) => work.extend(b.term.indirect_jmp_targets.iter().cloned()),
+                    Jmp::Call { target, return_: Some(r) } => {
+                        let follow = match returning {
+                            None => true,
+                            Some(set) => p.extern_symbols.contains_key(target) || set.contains(target),
+                        };
+                        if follow {
+                            work.push(r.clone());
+                        }
+                    }
+                    Jmp::CallInd { return_: Some(r), .. } => work.push(r.clone()),
+                    _ => (),
+                }
+            }
+        }
+        out.insert(sub.tid.clone(), set);
+    }
+    out
+}
+
+pub fn spec_of(program: &Term<Program>) -> Result<Spec, NoSpec> {
+    let p = &program.term;
+    // --- domain
+    let mut blocks: BTreeMap<Tid, &Term<Blk>> = BTreeMap::new();
+    for sub in p.subs.values() {
+        let mut seen = BTreeSet::new();
+        for b in &sub.term.blocks {
+            if !seen.insert(b.tid.clone()) {
+                return Err(NoSpec::OutOfDomain("block listed twice in one function", format!("{} in {}", b.tid, sub.tid)));
+            }
+            match blocks.get(&b.tid) {
+                Some(other) if **other != *b => return Err(NoSpec::OutOfDomain("two different blocks under one tid", format!("{}", b.tid))),
+                _ => {
+                    blocks.insert(b.tid.clone(), b);
+                }
+            }
+        }
+    }
+    for b in blocks.values() {
+        let js = &b.term.jmps;
+        if js.len() > 2 {
+            return Err(NoSpec::OutOfDomain("more than two jumps in a block", format!("{}", b.tid)));
+        }
+        if js.len() == 2 && !matches!(js[0].term, Jmp::CBranch { .. }) {
+            return Err(NoSpec::OutOfDomain("first of two jumps is not conditional", format!("{}", b.tid)));
+        }
+        if js.len() == 2 && matches!(js[1].term, Jmp::CBranch { .. }) {
+            return Err(NoSpec::OutOfDomain("second of two jumps is conditional", format!("{}", b.tid)));
+        }
+        if js.len() == 1 && matches!(js[0].term, Jmp::CBranch { .. }) {
+            return Err(NoSpec::OutOfDomain("only jump of a block is conditional", format!("{}", b.tid)));
+        }
+        for j in js {
+            let mut need: Vec<&Tid> = Vec::new();
+            match &j.term {
+                Jmp::Branch(x) | Jmp::CBranch { target: x, .. } => need.push(x),
+                Jmp::BranchInd(_) => need.extend(b.term.indirect_jmp_targets.iter()),
+                Jmp::Call { return_: Some(r), .. } | Jmp::CallInd { return_: Some(r), .. } => need.push(r),
+                _ => (),
+            }
+            for x in need {
+                if !blocks.contains_key(x) {
+                    return Err(NoSpec::OutOfDomain("nonexisting jump target or return site", format!("{x} in {}", j.tid)));
+                }
+            }
+        }
+    }
+    // --- which blocks belong to which function
+    let lax = closures(p, &blocks, None);
+    let mut returning: BTreeSet<Tid> = BTreeSet::new();
+    let strict = loop {
+        let cl = closures(p, &blocks, Some(&returning));
+        let now: BTreeSet<Tid> = p.subs.values().filter(|s| !s.term.blocks.is_empty() && cl[&s.tid].iter().any(|b| has_return(blocks[b]))).map(|s| s.tid.clone()).collect();
+        if now == returning {
+            break cl;
+        }
+        returning = now;
+    };
+    if strict != lax {
+        return Err(NoSpec::Silent("return site of a call without linkage is not otherwise part of the caller".into()));
+    }
+    let cl = strict;
+    // --- nodes and edges
+    let mut spec = Spec { nodes: Multiset::new(), edges: Multiset::new(), entries: BTreeMap::new(), foreign_pairs: 0, max_returns_linked: 0 };
+    for sub in p.subs.values() {
+        let s = &sub.tid;
+        if let Some(first) = sub.term.blocks.first() {
+            spec.entries.insert(format!("{s}"), l_start(&first.tid, s));
+        }
+        for bt in &cl[s] {
+            if !sub.term.blocks.iter().any(|b| b.tid == *bt) {
+                spec.foreign_pairs += 1;
+            }
+            let b = blocks[bt];
+            ms_add(&mut spec.nodes, l_start(bt, s));
+            ms_add(&mut spec.nodes, l_end(bt, s));
+            ms_add(&mut spec.edges, l_edge("Block", &l_start(bt, s), &l_end(bt, s)));
+            let end = l_end(bt, s);
+            for (idx, j) in b.term.jmps.iter().enumerate() {
+                let untaken = if idx == 1 { Some(&b.term.jmps[0].tid) } else { None };
+                match &j.term {
+                    Jmp::Branch(x) | Jmp::CBranch { target: x, .. } => ms_add(&mut spec.edges, l_edge(&l_jump(&j.tid, untaken), &end, &l_start(x, s))),
+                    Jmp::BranchInd(_) => {
+                        for x in &b.term.indirect_jmp_targets {
+                            ms_add(&mut spec.edges, l_edge(&l_jump(&j.tid, untaken), &end, &l_start(x, s)));
+                        }
+                    }
+                    Jmp::Call { target, return_ } => {
+                        if p.extern_symbols.contains_key(target) {
+                            if let Some(r) = return_ {
+                                ms_add(&mut spec.edges, l_edge(&format!("ExternCallStub[{}]", j.tid), &end, &l_start(r, s)));
+                            }
+                        } else if let Some(callee) = p.subs.get(target).filter(|c| !c.term.blocks.is_empty()) {
+                            let ct = &callee.tid;
+                            let entry = &callee.term.blocks[0].tid;
+                            let cs = l_callsource(bt, s, entry, ct);
+                            ms_add(&mut spec.nodes, cs.clone());
+                            ms_add(&mut spec.edges, l_edge(&format!("CallCombine[{}]", j.tid), &end, &cs));
+                            ms_add(&mut spec.edges, l_edge(&format!("Call[{}]", j.tid), &cs, &l_start(entry, ct)));
+                            if let Some(r) = return_ {
+                                let mut n = 0;
+                                for rb in cl[ct].iter().filter(|rb| has_return(blocks[*rb])) {
+                                    n += 1;
+                                    let cr = l_callreturn(bt, s, rb, ct);
+                                    ms_add(&mut spec.nodes, cr.clone());
+                                    ms_add(&mut spec.edges, l_edge("CrCallStub", &l_callsite(bt, s), &cr));
+                                    ms_add(&mut spec.edges, l_edge("CrReturnStub", &l_end(rb, ct), &cr));
+                                    ms_add(&mut spec.edges, l_edge(&format!("ReturnCombine[{}]", j.tid), &cr, &l_start(r, s)));
+                                }
+                                spec.max_returns_linked = spec.max_returns_linked.max(n);
+                            }
+                        }
+                        // call to an empty function or to an unknown tid: nothing
+                    }
+                    Jmp::CallInd { return_, .. } => {
+                        if let Some(r) = return_ {
+                            ms_add(&mut spec.edges, l_edge(&format!("ExternCallStub[{}]", j.tid), &end, &l_start(r, s)));
+                        }
+                    }
+                    Jmp::CallOther { .. } | Jmp::Return(_) => (),
+                }
+            }
+        }
+    }
+    Ok(spec)
+}
+
+// ---------------------------------------------------------------------------------------------
+// Observation
+
+fn node_label(n: &Node) -> String {
+    match n {
+        Node::BlkStart(b, s) => l_start(&b.tid, &s.tid),
+        Node::BlkEnd(b, s) => l_end(&b.tid, &s.tid),
+        Node::CallSource { source, target } => l_callsource(&source.0.tid, &source.1.tid, &target.0.tid, &target.1.tid),
+        Node::CallReturn { call, return_ } => l_callreturn(&call.0.tid, &call.1.tid, &return_.0.tid, &return_.1.tid),
+    }
+}
+
+/// The (block, function) references carried by a node must be terms of this program.
+fn node_refs_ok(program: &Term<Program>, n: &Node) -> Result<(), String> {
+    let pairs: Vec<(&Term<Blk>, &Term<Sub>)> = match n {
+        Node::BlkStart(b, s) | Node::BlkEnd(b, s) => vec![(*b, *s)],
+        Node::CallSource { source, target } => vec![*source, *target],
+        Node::CallReturn { call, return_ } => vec![*call, *return_],
+    };
+    for (b, s) in pairs {
+        match program.term.subs.get(&s.tid) {
+            Some(ps) if std::ptr::eq(ps, s) || ps == s => (),
+            _ => return Err(format!("node {} refers to a function term that is not the program's {}", node_label(n), s.tid)),
+        }
+        match program.term.find_block(&b.tid) {
+            Some(pb) if std::ptr::eq(pb, b) || pb == b => (),
+            _ => {
+                // any listed block of that tid with equal content is fine
+                let ok = program.term.subs.values().flat_map(|s| s.term.blocks.iter()).any(|pb| pb == b);
+                if !ok {
+                    return Err(format!("node {} refers to a block term that is not in the program", node_label(n)));
+                }
+            }
+        }
+    }
+    Ok(())
+}
+
+pub struct Observed {
+    pub nodes: Multiset,
+    pub edges: Multiset,
+    pub ref_errors: Vec<String>,
+    pub crcallstub_from_callsource: usize,
+    pub crcallstub_from_blkend: usize,
+}
+
+pub fn observe(program: &Term<Program>, g: &Graph) -> Observed {
+    let mut o = Observed { nodes: Multiset::new(), edges: Multiset::new(), ref_errors: vec![], crcallstub_from_callsource: 0, crcallstub_from_blkend: 0 };
+    for idx in g.node_indices() {
+        ms_add(&mut o.nodes, node_label(&g[idx]));
+        if let Err(e) = node_refs_ok(program, &g[idx]) {
+            o.ref_errors.push(e);
+        }
+    }
+    for e in g.edge_references() {
+        let (src, dst) = (&g[e.source()], &g[e.target()]);
+        let mut src_l = node_label(src);
+        let kind = match e.weight() {
+            Edge::Block => "Block".to_string(),
+            Edge::Jump(j, u) => l_jump(&j.tid, u.map(|u| &u.tid)),
+            Edge::Call(j) => format!("Call[{}]", j.tid),
+            Edge::ExternCallStub(j) => format!("ExternCallStub[{}]", j.tid),
+            Edge::CallCombine(j) => format!("CallCombine[{}]", j.tid),
+            Edge::ReturnCombine(j) => format!("ReturnCombine[{}]", j.tid),
+            Edge::CrReturnStub => "CrReturnStub".to_string(),
+            Edge::CrCallStub => {
+                match src {
+                    Node::CallSource { source, .. } => {
+                        o.crcallstub_from_callsource += 1;
+                        src_l = l_callsite(&source.0.tid, &source.1.tid);
+                    }
+                    Node::BlkEnd(b, s) => {
+                        o.crcallstub_from_blkend += 1;
+                        src_l = l_callsite(&b.tid, &s.tid);
+                    }
+                    _ => (),
+                }
+                "CrCallStub".to_string()
+            }
+        };
+        // jump references must be jumps of the source block
+        let jref: Vec<&Term<Jmp>> = match e.weight() {
+            Edge::Jump(j, Some(u)) => vec![*j, *u],
+            Edge::Jump(j, None) | Edge::Call(j) | Edge::ExternCallStub(j) | Edge::CallCombine(j) => vec![*j],
+            _ => vec![],
+        };
+        if let Node::BlkEnd(b, _) | Node::CallSource { source: (b, _), .. } = src {
+            for j in jref {
+                if !b.term.jmps.iter().any(|x| x == j) {
+                    o.ref_errors.push(format!("edge {kind} from {src_l} carries a jump that is not a jump of its source block"));
+                }
+            }
+        }
+        ms_add(&mut o.edges, l_edge(&kind, &src_l, &node_label(dst)));
+    }
+    o
+}
+
+fn ms_diff(expected: &Multiset, observed: &Multiset) -> Vec<(bool, String, usize, usize)> {
+    // (missing?, label, expected count, observed count)
+    let mut out = Vec::new();
+    for (l, n) in expected {
+        let m = observed.get(l).copied().unwrap_or(0);
+        if m < *n {
+            out.push((true, l.clone(), *n, m));
+        } else if m > *n {
+            out.push((false, l.clone(), *n, m));
+        }
+    }
+    for (l, m) in observed {
+        if !expected.contains_key(l) {
+            out.push((false, l.clone(), 0, *m));
+        }
+    }
+    out
+}
+
+fn kind_word(label: &str) -> &str {
+    let end = label.find(|c: char| !c.is_ascii_alphanumeric()).unwrap_or(label.len());
+    &label[..end]
+}
+
+#[derive(Default, Debug, Clone, Copy, PartialEq, Eq)]
+pub struct CfgOutcome {
+    pub decided: bool,
+    pub violated: bool,
+    pub nontrivial: bool,
+}
+
+/// Run the real graph builder on `program` and judge the result with the specification.
+pub fn check_cfg(program: &Term<Program>, stage: &str, rep: &mut Report, case: &dyn Fn() -> Value) -> CfgOutcome {
+    rep.eval();
+    let size = program.term.subs.values().map(|s| 1 + s.term.blocks.len() as u64).sum::<u64>();
+    let spec = match spec_of(program) {
+        Ok(s) => s,
+        Err(NoSpec::OutOfDomain(why, _detail)) => {
+            rep.inconclusive(&format!("{stage}:program-outside-builder-domain({why})"));
+            return CfgOutcome::default();
+        }
+        Err(NoSpec::Silent(_)) => {
+            rep.inconclusive(&format!("{stage}:documentation-silent(return-site-of-unlinked-call-not-otherwise-reachable)"));
+            // the builder must still not panic on it
+            if let Err(p) = guard(|| graph::get_program_cfg_with_logs(program).0.node_count()) {
+                rep.violation(format!("{stage}:panic:{}", panic_site(&p)), None, format!("get_program_cfg_with_logs panicked: {p}\n{}", show_program(&program.term)), case(), size);
+                return CfgOutcome { decided: true, violated: true, nontrivial: false };
+            }
+            return CfgOutcome::default();
+        }
+    };
+    let mut out = CfgOutcome { decided: true, violated: false, nontrivial: false };
+    let g = match guard(|| graph::get_program_cfg_with_logs(program)) {
+        Ok((g, _logs)) => g,
+        Err(p) => {
+            rep.violation(format!("{stage}:panic:{}", panic_site(&p)), None, format!("get_program_cfg_with_logs panicked on a program inside its input domain: {p}\n{}", show_program(&program.term)), case(), size);
+            out.violated = true;
+            return out;
+        }
+    };
+    let obs = observe(program, &g);
+    let mut complain = |rep: &mut Report, sig: String, detail: String| {
+        rep.violation(format!("{stage}:{sig}"), None, format!("{detail}\n--- program ({stage}):\n{}", show_program(&program.term)), case(), size);
+        out.violated = true;
+    };
+    for (what, exp, got) in [("node", &spec.nodes, &obs.nodes), ("edge", &spec.edges, &obs.edges)] {
+        let diff = ms_diff(exp, got);
+        let mut groups: BTreeMap<String, Vec<String>> = BTreeMap::new();
+        for (missing, label, n, m) in diff {
+            let sig = format!("{}-{what}:{}", if missing { "missing" } else { "unexpected" }, kind_word(&label));
+            groups.entry(sig).or_default().push(format!("  {label}   (expected {n} x, observed {m} x)"));
+        }
+        for (sig, lines) in groups {
+            let shown: Vec<String> = lines.iter().take(8).cloned().collect();
+            complain(rep, sig.clone(), format!("{sig}: the specification and the built graph differ in {} label(s):\n{}", lines.len(), shown.join("\n")));
+        }
+    }
+    if let Some(e) = obs.ref_errors.first() {
+        complain(rep, "dangling-reference".into(), e.clone());
+    }
+    // entry nodes
+    match guard(|| graph::get_entry_nodes_of_subs(&g)) {
+        Err(p) => complain(rep, format!("entry-nodes:panic:{}", panic_site(&p)), format!("get_entry_nodes_of_subs panicked: {p}")),
+        Ok(map) => {
+            let got: BTreeMap<String, String> = map.iter().map(|(t, idx)| (format!("{t}"), g.node_weight(*idx).map(node_label).unwrap_or_else(|| "<invalid node index>".into()))).collect();
+            if got != spec.entries {
+                let mut lines = Vec::new();
+                for (s, l) in &spec.entries {
+                    match got.get(s) {
+                        Some(x) if x == l => (),
+                        Some(x) => lines.push(format!("  {s}: expected {l}, observed {x}")),
+                        None => lines.push(format!("  {s}: expected {l}, observed no entry")),
+                    }
+                }
+                for (s, x) in &got {
+                    if !spec.entries.contains_key(s) {
+                        lines.push(format!("  {s}: expected no entry (function has no blocks), observed {x}"));
+                    }
+                }
+                complain(rep, "entry-nodes".into(), format!("get_entry_nodes_of_subs differs from {{non-empty function -> BlkStart of its first block}}:\n{}", lines.join("\n")));
+            }
+        }
+    }
+    // get_program_cfg is the same graph
+    match guard(|| {
+        let g2 = graph::get_program_cfg(program);
+        let o2 = observe(program, &g2);
+        (o2.nodes, o2.edges)
+    }) {
+        Err(p) => complain(rep, format!("get_program_cfg:panic:{}", panic_site(&p)), format!("get_program_cfg panicked: {p}")),
+        Ok((n2, e2)) => {
+            if n2 != obs.nodes || e2 != obs.edges {
+                complain(rep, "get_program_cfg-differs-from-with_logs".into(), "get_program_cfg and get_program_cfg_with_logs built different graphs for the same program".into());
+            }
+        }
+    }
+    // bookkeeping of what was driven
+    let mut kinds: BTreeMap<&str, u64> = BTreeMap::new();
+    for (l, n) in &spec.edges {
+        *kinds.entry(kind_word(l)).or_insert(0) += *n as u64;
+    }
+    for (k, n) in &kinds {
+        rep.obs_n(&format!("{stage}:edges:{k}"), *n);
+    }
+    rep.obs_n(&format!("{stage}:nodes"), spec.nodes.values().sum::<usize>() as u64);
+    if spec.foreign_pairs > 0 {
+        rep.obs(&format!("{stage}:programs-with-(block,function)-pairs-not-listed-in-the-function"));
+    }
+    if spec.max_returns_linked >= 2 {
+        rep.obs(&format!("{stage}:programs-with-call-linked-to>=2-return-blocks"));
+    }
+    if spec.edges.iter().any(|(l, n)| *n > 1 && l.starts_with("Jump")) {
+        rep.obs(&format!("{stage}:programs-with-repeated-identical-jump-edge"));
+    }
+    if obs.crcallstub_from_callsource > 0 {
+        rep.obs_n("CrCallStub-starts-at-CallSource", obs.crcallstub_from_callsource as u64);
+    }
+    if obs.crcallstub_from_blkend > 0 {
+        rep.obs_n("CrCallStub-starts-at-BlkEnd", obs.crcallstub_from_blkend as u64);
+    }
+    let special = kinds.iter().any(|(k, n)| matches!(*k, "Call" | "ExternCallStub") && *n > 0);
+    out.nontrivial = special && kinds.get("Jump").copied().unwrap_or(0) > 0;
+    out
+}
+
+/// Check one generated project in raw form and after `normalize_basic`.
+pub fn check_project(raw: &Project, rep: &mut Report, want_sample: bool) {
+    let case_raw = || json!({"stage": "raw", "project": project_to_json(raw)});
+    let o = check_cfg(&raw.program, "raw", rep, &case_raw);
+    if o.nontrivial {
+        rep.nontrivial(crate::prng::mix(1, fp_of(&raw.program)));
+    }
+    let mut norm = raw.clone();
+    match guard(|| {
+        let _ = norm.normalize_basic();
+    }) {
+        Ok(()) => {
+            let case_n = || json!({"stage": "normalized", "project": project_to_json(&norm)});
+            let o2 = check_cfg(&norm.program, "normalized", rep, &case_n);
+            if o2.nontrivial {
+                rep.nontrivial(crate::prng::mix(2, fp_of(&norm.program)));
+            }
+            if want_sample && o.nontrivial && o2.nontrivial && rep.wants_sample() {
+                if let Ok(spec) = spec_of(&norm.program) {
+                    rep.sample(json!({
+                        "raw_program": show_program(&raw.program.term),
+                        "normalized_program": show_program(&norm.program.term),
+                        "expected_nodes_normalized": spec.nodes,
+                        "expected_edges_normalized": spec.edges,
+                        "expected_entry_nodes": spec.entries,
+                        "verdict": if o.violated || o2.violated { "differs" } else { "observed graph has exactly these labels (raw and normalized)" },
+                    }));
+                }
+            }
+        }
+        Err(p) => {
+            // normalize_basic is C09's subject; here it is only a source of inputs
+            rep.inconclusive(&format!("normalize_basic-panicked:{}", panic_site(&p)));
+        }
+    }
+}
+
+fn observe_features(project: &Project, rep: &mut Report) {
+    let p = &project.program.term;
+    let mut feats: BTreeSet<&'static str> = BTreeSet::new();
+    for s in p.subs.values() {
+        let returns = s.term.blocks.iter().filter(|b| has_return(b)).count();
+        if returns >= 2 {
+            feats.insert("raw:function-with->=2-return-blocks");
+        }
+        for b in &s.term.blocks {
+            if b.term.jmps.is_empty() {
+                feats.insert("raw:block-without-jump");
+            }
+            if b.term.jmps.len() == 2 && !matches!(b.term.jmps[1].term, Jmp::Branch(_)) {
+                feats.insert("raw:two-jumps-second-not-a-plain-branch");
+            }
+            let ind = b.term.jmps.iter().any(|j| matches!(j.term, Jmp::BranchInd(_)));
+            if ind {
+                feats.insert(match b.term.indirect_jmp_targets.len() {
+                    0 => "raw:BranchInd-with-0-hints",
+                    1 => "raw:BranchInd-with-1-hint",
+                    2 => "raw:BranchInd-with-2-hints",
+                    _ => "raw:BranchInd-with-3-hints",
+                });
+            } else if !b.term.indirect_jmp_targets.is_empty() {
+                feats.insert("raw:hints-on-block-without-BranchInd");
+            }
+            for j in &b.term.jmps {
+                match &j.term {
+                    Jmp::Call { target, return_ } => {
+                        let ret = return_.is_some();
+                        if p.extern_symbols.contains_key(target) {
+                            feats.insert(if ret { "raw:extern-call-with-return-site" } else { "raw:extern-call-without-return-site" });
+                        } else if let Some(c) = p.subs.get(target) {
+                            if c.term.blocks.is_empty() {
+                                feats.insert("raw:call-to-empty-function");
+                            } else if *target == s.tid {
+                                feats.insert("raw:self-recursive-call");
+                            } else {
+                                feats.insert(if ret { "raw:internal-call-with-return-site" } else { "raw:internal-call-without-return-site" });
+                            }
+                        } else {
+                            feats.insert("raw:call-to-unknown-tid");
+                        }
+                    }
+                    Jmp::CallInd { return_, .. } => {
+                        feats.insert(if return_.is_some() { "raw:indirect-call-with-return-site" } else { "raw:indirect-call-without-return-site" });
+                    }
+                    Jmp::CallOther { .. } => {
+                        feats.insert("raw:CALLOTHER");
+                    }
+                    _ => (),
+                }
+            }
+        }
+    }
+    for f in feats {
+        rep.obs(f);
+    }
+}
+
+fn run(cfg: &Cfg) -> Report {
+    let shards = cfg.tier.pick(256usize, 2048usize);
+    let per_shard = cfg.tier.pick(700usize, 2500usize);
+    par_shards(cfg, "c08", shards, |idx, rng, rep| {
+        for _ in 0..per_shard {
+            let knobs = Knobs::c08(rng);
+            let project = gen_program(rng, &knobs);
+            rep.obs(&format!("knobs:shared={}", knobs.shared));
+            if knobs.listed_shared {
+                rep.obs("knobs:block-listed-in-two-functions");
+            }
+            if project.program.term.subs.values().any(|s| s.term.blocks.is_empty()) {
+                rep.obs("programs-with-empty-function");
+            }
+            observe_features(&project, rep);
+            let small = project.program.term.subs.len() <= 3 && project.program.term.subs.values().map(|s| s.term.blocks.len()).sum::<usize>() <= 5;
+            check_project(&project, rep, idx < 4 && small && (knobs.shared > 0 || idx % 2 == 0));
+        }
+    })
+}
+
+fn replay(_cfg: &Cfg, case: &Value) -> Report {
+    let mut rep = Report::new();
+    match project_from_json(&case["project"]) {
+        Ok(project) => {
+            let stage = case["stage"].as_str().unwrap_or("raw").to_string();
+            let c = || case.clone();
+            check_cfg(&project.program, &stage, &mut rep, &c);
+        }
+        Err(e) => rep.note(format!("cannot parse replay case: {e}")),
+    }
+    rep
 }
